@@ -604,3 +604,27 @@ Fixpoint plans_of (I : instance) (horizon : Z) (ts : list task) : list plan :=
 Definition best_goodput (I : instance) (horizon : Z) : Z :=
   fold_right (fun p acc => if precedence_clb I p && capacity_clb I p then Z.max (goodput I p) acc else acc) (-1)
              (plans_of I horizon (nonrunning I)).
+
+(* ------------------------------------------------------------------ hypotheses of the conditional completeness theorem (C14) *)
+Definition lbv (I : instance) (t : task) : Z := Z.max (i_now I + 1) (t_release t).
+(* the interval a task occupies in a plan; an unplaced task is the single instant of its earliest start *)
+Definition Sv (I : instance) (p : plan) (t : task) : Z := if placed_in I p t then start_in I p t else lbv I t.
+Definition Rv (I : instance) (p : plan) (t : task) : Z := if placed_in I p t then rt_in I p t else 0.
+Definition w_in (I : instance) (p : plan) (t : task) : Z := match sits I p t with Some (_, w, _, _) => w | None => 0 end.
+Definition k_in (I : instance) (p : plan) (t : task) : Z := match sits I p t with Some (_, _, k, _) => k | None => 0 end.
+Definition overl (I : instance) (p : plan) (x y : task) : bool :=
+  (Sv I p x <=? Sv I p y + Rv I p y) && (Sv I p y <=? Sv I p x + Rv I p x).
+(* two tasks of one worker that both overlap a third task (wherever that one runs) overlap each other *)
+Definition no_three_way (I : instance) (p : plan) : Prop :=
+  forall t1 t2 t3, In t1 (i_tasks I) -> In t2 (i_tasks I) -> In t3 (i_tasks I) ->
+  placed_in I p t2 = true -> placed_in I p t3 = true -> w_in I p t2 = w_in I p t3 ->
+  overl I p t1 t2 = true -> overl I p t1 t3 = true -> overl I p t2 t3 = true.
+Definition no_running (I : instance) : Prop := forall t, In t (i_tasks I) -> is_running t = false.
+(* task-by-task mode: no two decided tasks depend on one another *)
+Definition taskwise (I : instance) : Prop :=
+  (forall x y, In x (i_tasks I) -> In y (i_tasks I) -> dependent I x y = false) /\
+  (forall c, In c (i_tasks I) -> decided_parents I c = []).
+(* every task whose deadline is enforced could at least start by its deadline (otherwise: finding F22) *)
+Definition startable (I : instance) : Prop :=
+  forall t, In t (i_tasks I) -> enforce_for I t = true -> lbv I t <= t_deadline t.
+Definition caps_nonneg (I : instance) : Prop := forall w rq, In w (wenum I) -> In rq (w_res (snd w)) -> 0 <= snd rq.
